@@ -267,6 +267,9 @@ def run(ctx) -> None:
                 elif isinstance(v, ast.Call) and [unparse(x) for x in v.args] == ["old_vinfo"] and prog.resolve_call(fn, v, count=False).kind == "func":
                     pinned = pinned | cond
                     ctx.notes[f"{eng}_pin_fn"] = prog.resolve_call(fn, v, count=False).name
+                elif isinstance(v, ast.Call) and unparse(v.func).endswith("CalendarInfo") and v.args and \
+                        all(isinstance(x, ast.Attribute) and unparse(x.value) == "old_vinfo" for x in list(v.args) + [k.value for k in v.keywords]):
+                    pinned = pinned | cond          # the parsed calendar rebuilt in place
                 else:
                     other = True
             P = BF.var("pin_date")
@@ -293,15 +296,16 @@ def run(ctx) -> None:
     pats, fields, fmts = part_tables(ctx)
     doms = field_domains(ctx, pats)
     zero_fields = {f for f, (d, _p) in doms.items() if d[0] == "ints" and d[1] <= 0 <= d[2]}
-    vc = prog.function("v2version._ver_to_cal_info")
+    pin = shapes.pinned_calendar_ctor(prog, prog.function("v2version.incr"), "V2CalendarInfo")
+    ctx.require(pin is not None, "v2 incr: the place where the parsed calendar is rebuilt for --pin-date was not found")
+    vc, ctor0, p_v_txt = pin
     ctx.visit(vc.fq)
-    ctor = [c for c in ast.walk(vc.node) if isinstance(c, ast.Call) and unparse(c.func).endswith("V2CalendarInfo")]
-    ctx.require(len(ctor) == 1, "_ver_to_cal_info: V2CalendarInfo constructor not found")
+    ctor = [ctor0]
     cal_fields = prog.klass("version.V2CalendarInfo").fields
     args = dict(zip(cal_fields, ctor[0].args))
     args.update(shapes.kwargs_of(ctor[0]))
     ctx.floor("R5", "calendar fields carried over by _ver_to_cal_info", len(args), 9)
-    p_v = vc.params[0]
+    p_v = p_v_txt
     for f in cal_fields:
         e = args.get(f)
         ctx.require(e is not None, f"_ver_to_cal_info does not pass {f}")
